@@ -37,7 +37,22 @@ def boundary_values(rng, count):
     vals = []
     for _ in range(count):
         k = rng.randint(1, 22)
-        kind = rng.randint(0, 6)
+        kind = rng.randint(0, 8)
+        if kind >= 7:
+            # sparse digit strings: a few non-zero digits far apart in a long run of zeros (10^39 + 7, 4*10^24 + 1, 1e-12 + 1e-24):
+            # whatever decides the mark or the exponent from only PART of the cut-off digits goes wrong here (seeds C08-d, C08-e)
+            L = rng.randint(12, 70)
+            ds = ["0"] * L
+            ds[0] = rng.choice("123456789")
+            for _ in range(rng.randint(1, 3)):
+                ds[rng.randrange(L)] = rng.choice("123456789")
+            if kind == 8:
+                ds[-1] = rng.choice("123456789")
+            n, d = int("".join(ds)), 10 ** rng.choice([0, 0, 0, rng.randint(0, L + 20)])
+            if rng.random() < 0.4:
+                n = -n
+            vals.append([str(n), str(d)])
+            continue
         if kind == 0:
             n, d = 10 ** k - 1, 10 ** rng.randint(0, 25)                  # all nines
         elif kind == 1:
